@@ -100,12 +100,24 @@ def ftok(x):
 
 
 _LIT = re.compile(r"^[A-Za-z0-9_ .,;:+\-()/#?|&~=*<>\[\]{}!@$%^']*$")
+_POOL = {}          # string -> Coq constant name (a string literal costs ~2 ms to elaborate: define each one once)
 
 
 def cs(s):
-    if _LIT.match(s):
-        return '"%s"' % s
-    return '(h "%s")' % s.encode("utf-8").hex()
+    n = _POOL.get(s)
+    if n is None:
+        n = _POOL[s] = "s%d_" % len(_POOL)
+    return n
+
+
+def pool_definitions(terms):
+    used = set(re.findall(r"\bs\d+_", "\n".join(terms)))
+    out = []
+    for s, n in _POOL.items():
+        if n in used:
+            lit = '"%s"' % s if _LIT.match(s) else '(h "%s")' % s.encode("utf-8").hex()
+            out.append("Definition %s : string := Eval vm_compute in %s.\n" % (n, lit))
+    return "".join(out)
 
 
 def cz(z):
@@ -889,7 +901,8 @@ def run_coq(terms, tag):
         path = os.path.join(d, f"C16_{tag}_{k // 250}.v")
         with open(path, "w") as f:
             f.write("From Coq Require Import String List ZArith.\nFrom PV Require Import Model_scsv Entry_scsv.\n"
-                    "Import ListNotations.\nOpen Scope string_scope.\nSet Printing Width 1000000.\nSet Printing Depth 1000000.\n")
+                    "Import ListNotations.\nOpen Scope string_scope.\n")
+            f.write(pool_definitions(terms[k:k + 250]))
             for t in terms[k:k + 250]:
                 f.write("Eval vm_compute in %s.\n" % t)
         procs.append((path, len(terms[k:k + 250]), subprocess.Popen(
@@ -1115,7 +1128,10 @@ def oracle(impl, s, data, fault=None):
 
 def run(chk):
     logging.disable(logging.CRITICAL)
+    import time
+    t0 = time.time()
     ok, br = proofs.prove(chk, FILES, PROP, groups=(), gen_modules=("scsv",))
+    chk.cov["seconds_build_and_proofs"] = round(time.time() - t0, 1)
     tmp = os.path.join(common.BUILD, f"tmp-{os.getpid()}")
     os.makedirs(tmp, exist_ok=True)
     try:
@@ -1157,7 +1173,11 @@ def _run(chk, ok, br, tmp):
                 continue
             terms.append(t)
             kept.append(c)
+        import time
+        chk.cov["seconds_implementation_runs"] = round(time.time() - chk.t0 - chk.cov.get("seconds_build_and_proofs", 0), 1)
+        t1 = time.time()
         outs = run_coq(terms, chk.tier)
+        chk.cov["seconds_model_evaluation_coqc"] = round(time.time() - t1, 1)
         bad, hits, unclassified = compare(chk, kept, outs)
         chk.cov["traces_validated_against_impl"] = len(kept)
     chk.cov["disagreements"] = len(bad)
